@@ -287,8 +287,13 @@ Definition add_back_round (c : config) (mav : list (string * pset)) (versions : 
 (* addBackOwnedItems: the pruned version first, then the others; with more than one
    version the rounds are repeated until nothing more is added back (update.go, as
    repaired: a field owned at one version beneath an item owned only at another) *)
+(* [previous]: the pruned object as the previous round left it.  A pass can report a change
+   that a later pass of the same round undoes (an empty list is part of the object but of
+   no field set), so the loop also stops when a whole round leaves the object as the
+   previous round left it (update.go, second repair: without this the Go loop does not
+   terminate on such objects). *)
 Fixpoint add_back_rounds (fuel : nat) (c : config) (mav : list (string * pset)) (versions : list string)
-  (n : nat) (merged pruned : tv) : ures (tv * nat) :=
+  (n : nat) (merged pruned : tv) (previous : option tv) : ures (tv * nat) :=
   match fuel with
   | O => UErr EOther
   | S fuel' =>
@@ -296,7 +301,10 @@ Fixpoint add_back_rounds (fuel : nat) (c : config) (mav : list (string * pset)) 
       | UErr e => UErr e
       | UOk (m, p, changed, n') =>
           if changed && Nat.leb 2 (List.length versions)
-          then add_back_rounds fuel' c mav versions n' m p
+          then
+            if match previous with Some q => veqb (snd q) (snd p) | None => false end
+            then UOk (p, n')
+            else add_back_rounds fuel' c mav versions n' m p (Some p)
           else UOk (p, n')
       end
   end.
@@ -307,7 +315,7 @@ Definition add_back_owned (c : config) (n : nat) (merged pruned : tv) (prunedVer
   let first := match assoc_get prunedVersion mav with Some _ => [prunedVersion] | None => [] end in
   let others := cfg_version_order c (map fst (assoc_remove prunedVersion mav)) in
   (* every round that changes something adds at least one node of the merged object *)
-  add_back_rounds (S (S (value_size (snd merged)))) c mav (first ++ others) n merged pruned.
+  add_back_rounds (S (S (value_size (snd merged)))) c mav (first ++ others) n merged pruned None.
 
 (* addBackDanglingItems *)
 Definition add_back_dangling (c : config) (n : nat) (merged pruned : tv) (last : mrec)
